@@ -31,6 +31,7 @@ PROPS = {
     "C06": dict(worlds=[("coll", 1.0)], quick=300_000, thorough=12_000_000),
     "C07": dict(worlds=[("arena", 0.25), ("coll", 0.75)], quick=200_000, thorough=8_000_000),
     "C08": dict(worlds=[("coll", 1.0)], quick=300_000, thorough=12_000_000),
+    "C09": dict(worlds=[("strs", 1.0)], quick=300_000, thorough=10_000_000),
     "C10": dict(worlds=[("arena", 1.0)], quick=60_000, thorough=3_000_000),
     "C12": dict(worlds=[("arena", 1.0)], quick=60_000, thorough=3_000_000),
     "C13": dict(worlds=[("arena", 1.0)], quick=60_000, thorough=3_000_000),
@@ -45,6 +46,8 @@ STUBS = {
     "arena": ["base allocator: SimHeap (simcore/src/heap.rs) behind 5 handle types", "callers: seeded interpreter (sim/src/bin/arena)"],
     "coll": ["base allocator: SimHeap (simcore/src/heap.rs)", "element types, closures, iterators: Tracked elements with a drop ledger and scripted callbacks (sim/src/bin/coll/elem.rs, iters.rs)",
              "std::vec::Vec<u32> reference model of the element sequence (oracle side)"],
+    "strs": ["base allocator: SimHeap (simcore/src/heap.rs)", "Display impls / retain predicates: scripted, may fail or unwind (sim/src/bin/strs/interp.rs)",
+             "std::string::String reference model (oracle side)"],
 }
 
 
@@ -65,7 +68,7 @@ def build(world, profile="release"):
     cmd += ["--release"] if profile == "release" else ["--profile", profile]
     if os.environ.get("VERIF_SMALL"):
         cmd += ["--features", "small"]
-    p = subprocess.run(cmd, cwd=SIM, env=cargo_env(), stdout=subprocess.PIPE, stderr=subprocess.STDOUT, text=True)
+    p = subprocess.run(cmd, cwd=SIM, env=cargo_env(), stdout=subprocess.PIPE, stderr=subprocess.STDOUT, encoding="utf-8", errors="replace")
     if p.returncode != 0:
         log(p.stdout[-6000:])
         log(f"HARNESS-ERROR: building world '{world}' failed")
@@ -94,7 +97,7 @@ def known_match(known, prop, cls):
 def run_replay(binary, path, timeout=60):
     """Returns (kind, classes): kind in {'ok','viol','crash','harness'}."""
     try:
-        p = subprocess.run([binary, "replay", path, "--quiet"], stdout=subprocess.PIPE, stderr=subprocess.PIPE, text=True, timeout=timeout)
+        p = subprocess.run([binary, "replay", path, "--quiet"], stdout=subprocess.PIPE, stderr=subprocess.PIPE, encoding="utf-8", errors="replace", timeout=timeout)
     except subprocess.TimeoutExpired:
         return ("crash", ["timeout"], "")
     classes = re.findall(r"^VIOLATION property=\S+ class=(\S+)", p.stdout, re.M)
@@ -246,7 +249,7 @@ def run_batch(binary, world, prop, tier, seed, total, jobs, workdir):
             if os.path.exists(f):
                 os.remove(f)
         cmd = [binary, "run", "--prop", prop, "--seed", str(seed), "--start", str(start), "--count", str(count), "--tier", tier, "--out", out, "--progress", prog]
-        p = subprocess.Popen(cmd, stdout=subprocess.PIPE, stderr=subprocess.PIPE, text=True)
+        p = subprocess.Popen(cmd, stdout=subprocess.PIPE, stderr=subprocess.PIPE, encoding="utf-8", errors="replace")
         procs.append(dict(p=p, out=out, prog=prog, start=start, count=count))
 
     for (s, c) in pending:
@@ -356,7 +359,7 @@ def main():
         for v in violations:
             cands.append((v["class"], v["trace"], f"seed {v['run_seed']} index {v['index']}: {v['msg']}"))
         for c in crashes:
-            p = subprocess.run([binaries[world], "gen", "--prop", prop, "--seed", str(seed), "--index", str(c["index"]), "--tier", tier], stdout=subprocess.PIPE, text=True)
+            p = subprocess.run([binaries[world], "gen", "--prop", prop, "--seed", str(seed), "--index", str(c["index"]), "--tier", tier], stdout=subprocess.PIPE, encoding="utf-8", errors="replace")
             cands.append((c["cls"], p.stdout, f"worker died at run seed {c['run_seed']} index {c['index']}: {c['stderr'][-300:]}"))
         seen = set()
         for cls, text, origin in cands:
